@@ -1146,8 +1146,37 @@ func FromV3Operation(doc3 *openapi3.T, operation *openapi3.Operation) (*openapi2
 			return nil, err
 		}
 		result.Responses = resultResponses
+		// OpenAPI 2 says once per operation which media types its responses come in (JSON when it says nothing)
+		if produces := producesOf(responses.Map(), doc3.Components); len(produces) > 1 || (len(produces) == 1 && produces[0] != "application/json") {
+			result.Produces = produces
+		}
 	}
 	return result, nil
+}
+
+// producesOf lists the media types under which responses declare content.
+func producesOf(responses map[string]*openapi3.ResponseRef, components *openapi3.Components) []string {
+	mediaTypes := make(map[string]struct{})
+	for _, ref := range responses {
+		response := ref.Value
+		if response == nil && components != nil {
+			if shared := components.Responses[strings.TrimPrefix(ref.Ref, "#/components/responses/")]; shared != nil {
+				response = shared.Value
+			}
+		}
+		if response == nil {
+			continue
+		}
+		for mediaType := range response.Content {
+			mediaTypes[mediaType] = struct{}{}
+		}
+	}
+	produces := make([]string, 0, len(mediaTypes))
+	for mediaType := range mediaTypes {
+		produces = append(produces, mediaType)
+	}
+	sort.Strings(produces)
+	return produces
 }
 
 func FromV3RequestBody(name string, requestBodyRef *openapi3.RequestBodyRef, mediaType *openapi3.MediaType, components *openapi3.Components) (*openapi2.Parameter, error) {
